@@ -374,6 +374,11 @@ def c03(res, tier, seed, replay):
             runs.append({"name": f"vam-mix-{m}-{s}",
                          "args": ["-mode", "rank", "-config", f"vamana-{m}", "-seed", seed * 100 + 20 + s,
                                   "-hist", 2 if tier == "quick" else 8, "-batches", 14 if tier == "quick" else 30, "-rank", 6]})
+        # longer mixed histories: vector updates derived from the stored vector (the same again, negated, orthogonal)
+        for m in ("dot", "euclidean"):
+            runs.append({"name": f"vam-upd-{m}-{s}",
+                         "args": ["-mode", "rank", "-config", f"vamana-{m}", "-seed", seed * 100 + 30 + s,
+                                  "-hist", 2 if tier == "quick" else 6, "-batches", 40, "-rank", 4]})
         # index built with search size 25, queries with up to 75: 30 points (more than the build window, fewer than the
         # query window) and boundary-size id filters on 300 ids
         runs.append({"name": f"vam-win25-io-{s}",
